@@ -20,6 +20,10 @@
                                    "a root is stored" and "a root has a volume slot" go
      persist/sqlite/metrics.go     incrementNumericStat for metricContractSectors only (its
                                    "negative stat value" panic is reachable from the replay code)
+   WP-Y: contains /repo 7f58b1d (fixes/C03-v2-rejected-contract-not-revisable.patch): Manager.ReviseV2Contract and
+   RenewV2Contract refuse a contract whose status is rejected, LockV2Contract reports it not revisable.  The
+   status enters as [rejd] (the ids RejectContracts has marked, op [Reject]); of isGoodForModification's status
+   clause (v1) this layer has nothing — Hand.v has it.
    No proofs here.  The callers of these calls as sessions that take the contract lock: Sess.v; what the
    chain does to a negotiated renewal: Chain.v (WP-N).
 
@@ -283,14 +287,17 @@ Record db := mkdb {
   located : list root;            (* stored sectors that have a volume_sectors slot *)
   t1 : list (cid * ct);           (* contracts + contract_sector_roots *)
   t2 : list (cid * ct);           (* contracts_v2 + contract_v2_sector_roots *)
-  nsec : N }.                     (* host_stats: metricContractSectors (latest value) *)
+  nsec : N;                       (* host_stats: metricContractSectors (latest value) *)
+  rejd : list cid }.              (* contract_status = rejected (RejectContracts), as far as the v2 guard reads it *)
 
 Definition set_t1 (d : db) (t : list (cid * ct)) : db :=
-  {| stored := stored d; located := located d; t1 := t; t2 := t2 d; nsec := nsec d |}.
+  {| stored := stored d; located := located d; t1 := t; t2 := t2 d; nsec := nsec d; rejd := rejd d |}.
 Definition set_t2 (d : db) (t : list (cid * ct)) : db :=
-  {| stored := stored d; located := located d; t1 := t1 d; t2 := t; nsec := nsec d |}.
+  {| stored := stored d; located := located d; t1 := t1 d; t2 := t; nsec := nsec d; rejd := rejd d |}.
 Definition set_nsec (d : db) (n : N) : db :=
-  {| stored := stored d; located := located d; t1 := t1 d; t2 := t2 d; nsec := n |}.
+  {| stored := stored d; located := located d; t1 := t1 d; t2 := t2 d; nsec := n; rejd := rejd d |}.
+Definition set_rejd (d : db) (l : list cid) : db :=
+  {| stored := stored d; located := located d; t1 := t1 d; t2 := t2 d; nsec := nsec d; rejd := l |}.
 
 Definition with_rev (c : ct) (r f : N) (m : hash) : ct :=
   {| rev := r; fsize := f; cap := cap c; mroot := m; wstart := wstart c; expi := expi c;
@@ -444,7 +451,7 @@ Record state := mkstate {
   height : N }.                         (* chain tip height *)
 
 Definition init : state :=
-  {| dbs := {| stored := []; located := []; t1 := []; t2 := []; nsec := 0 |};
+  {| dbs := {| stored := []; located := []; t1 := []; t2 := []; nsec := 0; rejd := [] |};
      cache := []; upds := []; locks := []; height := 0 |}.
 
 Definition set_dbs (s : state) (d : db) : state :=
@@ -506,7 +513,10 @@ Inductive op :=
   (* the store methods called directly, past the manager and its cache (used to tie the
      replay / diff code on stale [old] lists; never part of a disciplined history) *)
 | RawRevise1 (id : cid) (nrev nfsize : N) (nmroot : hash) (old : list root) (acts : list action) (fault : option nat)
-| RawRevise2 (id : cid) (c : rv2) (old new : list root) (fault : option nat).                                       (* reopen the database, NewManager *)
+| RawRevise2 (id : cid) (c : rv2) (old new : list root) (fault : option nat)
+  (* UpdateChainState -> RejectContracts: [ids] = the v1 and v2 contracts it reports as rejected (pending past
+     the reject buffer); the status is written, nothing else *)
+| Reject (ids : list cid).
 
 Inductive obs :=
 | ORes (r : res unit)
@@ -559,6 +569,7 @@ Definition m_revise2 (s : state) (id : cid) (c : rv2) (newroots : list root) (mn
            (rsig hsig : bool) : M db :=
   mdo e <- store_get (t2 (dbs s)) id;
   if opt_is_some (rto e) then lift (Err EInvalid)
+  else if mem id (rejd (dbs s)) then lift (Err EInvalid)      (* "rejected contracts cannot be revised" (7f58b1d) *)
   else if negb (rk e =? r2_rk c) then lift (Err EInvalid)
   else if negb (hk e =? r2_hk c) then lift (Err EInvalid)
   else if negb (wstart e =? r2_ph c) then lift (Err EInvalid)
@@ -574,7 +585,8 @@ Definition m_renew2 (s : state) (old new : cid) (c : rv2) (mold : hash) (wf : bo
   if negb wf then lift (Err EInvalid)
   else
     mdo e <- store_get (t2 (dbs s)) old;
-    if negb (r2_fsize c =? fsize e) then lift (Err EInvalid)
+    if mem old (rejd (dbs s)) then lift (Err EInvalid)        (* "rejected contracts cannot be renewed" (7f58b1d) *)
+    else if negb (r2_fsize c =? fsize e) then lift (Err EInvalid)
     else if negb (r2_cap c =? cap e) then lift (Err EInvalid)
     else if negb (r2_mroot c =? mroot e) then lift (Err EInvalid)
     else if negb (r2_mroot c =? mold) then lift (Err EInvalid)
@@ -592,11 +604,11 @@ Definition step (s : state) (o : op) : state * obs :=
       let d := dbs s in
       (set_dbs s {| stored := if mem r (stored d) then stored d else r :: stored d;
                     located := if mem r (located d) then located d else r :: located d;
-                    t1 := t1 d; t2 := t2 d; nsec := nsec d |}, ORes (Ok tt))
+                    t1 := t1 d; t2 := t2 d; nsec := nsec d; rejd := rejd d |}, ORes (Ok tt))
   | Prune =>
       let d := dbs s in
       (set_dbs s {| stored := stored d; located := filter (referenced d) (located d);
-                    t1 := t1 d; t2 := t2 d; nsec := nsec d |}, ORes (Ok tt))
+                    t1 := t1 d; t2 := t2 d; nsec := nsec d; rejd := rejd d |}, ORes (Ok tt))
   | SetHeight h =>
       ({| dbs := dbs s; cache := cache s; upds := upds s; locks := locks s; height := h |}, ORes (Ok tt))
   | Form1 id frev ffsize fmroot ws =>
@@ -662,7 +674,7 @@ Definition step (s : state) (o : op) : state * obs :=
            | Some c =>
                let renewed := opt_is_some (rto c) in
                let maxh := if rev_buffer <? wstart c then wstart c - rev_buffer else 0 in
-               (s, OLock2 (Ok (rev c, renewed, negb renewed && (height s <? maxh), cache_get s id)))
+               (s, OLock2 (Ok (rev c, renewed, negb renewed && negb (mem id (rejd (dbs s))) && (height s <? maxh), cache_get s id)))
            end
   | Look1 id => (s, look (t1 (dbs s)) s id)
   | Look2 id => (s, look (t2 (dbs s)) s id)
@@ -674,6 +686,7 @@ Definition step (s : state) (o : op) : state * obs :=
       outcome s (store_revise1 (dbs s) id nrev nfsize nmroot old acts fault) (set_dbs s)
   | RawRevise2 id c old new fault =>
       outcome s (store_revise2 (dbs s) id c old new fault) (set_dbs s)
+  | Reject ids => (set_dbs s (set_rejd (dbs s) (ids ++ rejd (dbs s))), ORes (Ok tt))
   end.
 
 (* the three calls as they were before the WP-G patch: isGoodForModification is evaluated by Manager.Lock
